@@ -34,21 +34,21 @@ add("C19", "model_checking",
     "The complete reachable state graph of gen_wilson on 1x2..3x3 (thorough: 2x4, 4x2, 3x4 under a cap) is built from real executions under the "
     "choice oracle; the terminal set must equal the brute-force set of spanning trees and every tree's exact absorption probability must be 1/N "
     "(1e-9), with residual mass < 1e-12. Weighted draws (choice(p=...)) are modelled with their weights. Chains of several grid shapes are also built one after the other in one "
-    "fresh interpreter, and with the real PRNG the tree after np.random.seed(s) is checked to be a function of s alone (twice with other RNG use in between, in a forked child) with every tree occurring over the seed range.",
+    "fresh interpreter, and with the real PRNG the tree after np.random.seed(s) is checked to be a function of s alone (twice with other RNG use in between, in a forked child) with every tree occurring over the seed range. Seeding layer also on elongated grids 2x4..2x6 and transposes (every spanning tree is drawn for some seed).",
     "Decides uniformity of the algorithm given uniform NumPy primitives, not PRNG quality for every seed; bounded grids.", "5/C19")
 add("C09", "exploration",
     "bounded-exhaustive enumeration of all ordered maze pairs of a variant family and of the endpoint coordinate box",
     "All ordered pairs (same object / equal copy / every other member) over a family of mazes of all three kinds and several shapes with one-bit, "
     "one-endpoint, one-solution-cell and metadata variants are compared with ==, != and hash against a fingerprint model; sets/dicts and dataset "
     "equality likewise (incl. degenerate and broadcast-compatible shapes); every start/end in the box reaching beyond both dimensions on square and oblong grids through five constructors; "
-    "every sequence of <= 3 (4) observations and in-place changes on one live maze object against a fresh maze of the same structure.",
+    "every sequence of <= 3 (4) observations and in-place changes on one live maze object against a fresh maze of the same structure. Slices of the pair / set tasks again under other interpreter hash seeds.",
     "Family-based (not all mazes); shapes <= 3x3.", "5/C09")
 add("C02", "exploration",
     "bounded-exhaustive enumeration of all connection structures x all ordered cell pairs against a reference BFS",
     "Every graph on every grid up to 3x3 (thorough: up to 3x4/4x3, 131072 graphs each) x every ordered (start,end) pair is solved by the real A* "
     "and compared with reference BFS distances: endpoints, adjacency along connections, exact minimal length, ValueError iff disconnected, "
     "one-cell path for start==end; also through SolvedMaze.from_targeted_lattice_maze, on structured mazes up to 20x20, on one- and two-cell-wide grids with a side of 129..300 cells, "
-    "and with same-cell-count shapes interleaved in one fresh interpreter (one maze object per graph for all its pairs).",
+    "and with same-cell-count shapes interleaved in one fresh interpreter (one maze object per graph for all its pairs). Also corridors / two-wide ladders of 1100 (3001, 10007) cells and slices of the task lists under other interpreter hash seeds.",
     "Small-scope: larger grids only via structured families.", "5/C02")
 
 add("C08", "model_checking",
@@ -67,7 +67,7 @@ add("C04", "model_checking",
     "multiprocessing child) is executed; in every distinct global state every observed configuration (all generators x kwargs x seeds, endpoint options, "
     "filters) is generated and must be bit-identical to the generation from the initial state; from_config(no cache) must equal generate + reference "
     "filters and leave the cfg unchanged (generate too); fingerprints are recomputed in fresh interpreters with PYTHONHASHSEED in {0,1,2,4242,random}; every observed configuration is also "
-    "generated alone in a fresh interpreter and after every history over its one-field neighbours x {construct, generate, from_config}, each history in its own fork of a pristine interpreter.",
+    "generated alone in a fresh interpreter and after every history over its one-field neighbours x {construct, generate, from_config}, each history in its own fork of a pristine interpreter. Ladders beyond the small scope: grid_n 2..32 (64) for every generator, n_mazes 1..130 (1002), seeds around 2^31 / 2^32 / 2^63 and negative - generate, draw from every RNG, generate again, from_config: same outcome.",
     "Global state = the RNGs and module globals listed in the evidence; grid 3-4, n_mazes 3-6.", "5/C04")
 add("C14", "exploration",
     "bounded-exhaustive enumeration of all 4096 vocabulary positions, all single/pair/triple token and id sequences over boundary alphabets, all unknown-token/id "
@@ -81,7 +81,7 @@ add("C16", "exploration",
     "bounded-exhaustive enumeration of all member-length vectors, each member on its own grid size, every index, against list concatenation by object identity",
     "All length vectors in {0..3}^<=4 (thorough {0..4}^<=5, 3905 vectors) incl. every zero pattern x 4 config constructions; every valid index checked by identity "
     "against the concatenation (plus i=len), mazes / dataset_lengths / dataset_cum_lengths / cfg.n_mazes agreement before and after update_self_config; every sequence of <= 3 observations "
-    "over 10 kinds (incl. all ordered index pairs) on fresh collections.",
+    "over 10 kinds (incl. all ordered index pairs) on fresh collections. Slices of the tasks again under other interpreter hash seeds.",
     "Members hold small fixed mazes; negative / numpy indices not covered.", "5/C16")
 
 add("C03", "model_checking",
@@ -106,7 +106,7 @@ add("C13", "exploration",
     "connections, against a dict-of-sets adjacency",
     "Every graph of all grids up to 3x3 (thorough: 2x4/4x2 fully, 3x4/4x3 for the cheap queries, structured mazes to 15x15) x every cell, ordered pair, candidate path (valid, broken, "
     "out of bounds, empty) and solution for thirteen query functions incl. adjacency-list round trips under all shuffle answers (bounded family above 4 connections) and the "
-    "fork / path-following partition; same-cell-count shapes interleaved in one fresh interpreter; one live maze whose connection array is rewritten in place, battery after every rewrite.",
+    "fork / path-following partition; same-cell-count shapes interleaved in one fresh interpreter; one live maze whose connection array is rewritten in place, battery after every rewrite. Candidate paths of every length 1..300 (1200, stride to 6000) with broken variants at first / middle / last position; walks as solutions for the forking rule; slices under other hash seeds.",
     "get_connected_component without metadata only on connected graphs; from_adj_list only where the highest row and column index occur; lattice_max_degrees(1) observed, not judged.", "5/C13")
 add("C20", "exploration",
     "bounded-exhaustive enumeration of graphs x unit lengths x cell values for the image builder and of complete Agg plots / path overlays, pixels and artist coordinates read back",
@@ -120,7 +120,7 @@ add("C05", "exploration",
     "5 generators x grids 2-6 x n in {1,2,3,5} and every solution-length-class assignment over {1,2,3,full} for n<=3 (n<=4 thorough) plus 13 n=5 patterns, x 3 metadata modes x "
     "{full, minimal, minimal_soln_cat, serialize() under 5 thresholds} x {in-memory, ZANJ file}; collections of 1-3 members incl. empty ones x thresholds x 3 config wirings; every "
     "case compared maze by maze, cfg and collected-metadata counter with a pre-serialisation snapshot; solution lengths across 127/128/255/256; chains of <= 3 serialisation steps; "
-    "every sequence of <= 4 steps over serialise-and-keep / load / write-later for two same-sized datasets.",
+    "every sequence of <= 4 steps over serialise-and-keep / load / write-later for two same-sized datasets. Datasets of every size 1..130 and around 256 / 500 / 512 / 1000 / 1024 / 1200 / 2048 (4096, 10000) with per-maze distinct content under configurations with long float arguments.",
     "Grids <= 6, n <= 5; partial per-maze metadata, threshold -1 and grids > 127 out of bound; the documented in-place collect_generation_meta provenance entry is tolerated.", "5/C05")
 add("C15", "exploration",
     "bounded-exhaustive enumeration of the real all_instances / get_all_tokenizers output (element families, a 72-slice partition of the whole 5,878,656-tokenizer space, stars/boxes, "
@@ -143,7 +143,7 @@ add("C06", "exploration",
     "Region sweep: all 1 944 adjacency and 9 072 path programs from the library's own all_instances on every 2x2 graph / solved maze, a 3x3 family, 11x11, 17x17 corridor and (thorough) "
     "50x50 mazes; input sweep: pairwise-covering full tokenizers x all mazes of all kinds on 2x2, 2x3, 3x3 trees and cyclic graphs; whole-prompt sweep: both sequencers x 3 coord "
     "tokenizers x covering elements x three kinds. Every stream: vocabulary membership, region delimiters once and in order, decoded edge multiset == selected edge set with correct "
-    "labels, origin/target, path steps (coords, cardinal, relative, distance) == reference step rule. 13x13 / 16x16 mazes; one stored solution over every maze that contains it.",
+    "labels, origin/target, path steps (coords, cardinal, relative, distance) == reference step rule. 13x13 / 16x16 mazes; one stored solution over every maze that contains it. Walks (cells repeated) as stored solutions; adjacency sweeps on 24x24 (33x33, 50x50) under scripted non-identity shuffle / flip policies.",
     "The product programs x inputs is not claimed; shuffle answers complete only on 2x2; non-square mazes with AllLatticeEdges are rejected by the library (counted). One known finding (Distance gap > 255).", "5/C06")
 add("C07", "exploration",
     "bounded-exhaustive enumeration of mazes (all admissible graphs <= 3x3, every gen_dfs output on 4x4, structured 11/12/20) x kinds x 3 legacy modes x max_grid_size x modular equivalents "
